@@ -387,6 +387,35 @@ func famDAG(g *Gen) {
 			}
 		}
 		g.do(Cmd{Op: OpBackprop, U: T(pool2[len(pool2)-1])})
+	} else if g.chance(0.5) {
+		// the way a training loop continues: every leaf that received a gradient is replaced by
+		// leaf - 0.1*gradient (computed from spent tensors), reset to a tracked leaf, and a second graph is
+		// built over the replacements and back-propagated; the gradient tensors of the first pass are kept
+		g.tag("update-reset-second-graph")
+		var leaves2 []int
+		for _, l := range pool[:nLeaves] {
+			gr, o := g.do(Cmd{Op: OpGradOf, T: l})
+			if o.Kind != "tensor" {
+				leaves2 = append(leaves2, l)
+				continue
+			}
+			d, _ := g.do(Cmd{Op: OpScale, T: gr, A: Dec{1, -1}})
+			w, ow := g.do(Cmd{Op: OpBin, K: 9, T: l, U: T(d)})
+			if ow.Kind != "tensor" {
+				leaves2 = append(leaves2, l)
+				continue
+			}
+			g.do(Cmd{Op: OpReset, T: w, Flag: true})
+			leaves2 = append(leaves2, w)
+		}
+		pool3 := append([]int{}, leaves2...)
+		for i := 0; i < 2+g.intn(5); i++ {
+			y := g.dagStep(pool3, false)
+			if g.isT(y) {
+				pool3 = append(pool3, y)
+			}
+		}
+		g.do(Cmd{Op: OpBackprop, U: T(pool3[len(pool3)-1])})
 	}
 }
 
@@ -499,6 +528,40 @@ func famTracking(g *Gen) {
 	}
 	for i := 0; i < 2; i++ {
 		newLeaf()
+	}
+	if g.chance(0.3) {
+		// forced pattern: a tensor computed from a spent tensor is reset (to tracked or to untracked) and then
+		// combined with a fresh tracked leaf; the result must be tracked and reach both
+		g.tag("forced-reset-of-spent-derived")
+		w := g.leafDistinct(ds, true, -1.5, 1.5)
+		m.tracked[w], m.leaf[w] = true, true
+		all = append(all, w)
+		y, o := g.do(Cmd{Op: OpScale, T: w, A: Dec{2, 0}})
+		derive(y, o.Kind == "tensor", true, w)
+		if o.Kind == "tensor" && m.bpAllowed(y) {
+			g.do(Cmd{Op: OpBackprop, U: T(y)})
+			for _, n := range m.reach(y) {
+				m.spent[n] = true
+			}
+		}
+		w2, o2 := g.do(Cmd{Op: OpScale, T: w, A: Dec{1, 0}})
+		derive(w2, o2.Kind == "tensor", true, w)
+		if o2.Kind == "tensor" && m.resetAllowed(w2, all) {
+			tr := g.chance(0.5)
+			g.do(Cmd{Op: OpReset, T: w2, Flag: tr})
+			m.tracked[w2], m.spent[w2], m.leaf[w2], m.parents[w2] = tr, false, true, nil
+			x := g.leafDistinct(ds, true, -1.5, 1.5)
+			m.tracked[x], m.leaf[x] = true, true
+			all = append(all, x)
+			z, o3 := g.do(Cmd{Op: OpBin, K: 10, T: x, U: T(w2)})
+			derive(z, o3.Kind == "tensor", true, x, w2)
+			if o3.Kind == "tensor" && m.bpAllowed(z) {
+				g.do(Cmd{Op: OpBackprop, U: T(z)})
+				for _, n := range m.reach(z) {
+					m.spent[n] = true
+				}
+			}
+		}
 	}
 	steps := 8 + g.intn(30)
 	for i := 0; i < steps; i++ {
